@@ -15,7 +15,6 @@ U32 = (1 << 32) - 1
 GFIELDS = ["slot", "status", "ptype", "lba", "part_blocks", "total", "use16", "spc", "reserved", "nfats",
            "fat_size", "root_entries", "root_cluster", "fs_info", "backup_boot", "media", "hidden",
            "info_free", "info_next", "label"]
-NOFIT = 'err FormatError "Volume does not fit the device"'
 SHALLOW = ('err FormatError "Invalid MBR signature"', "err NoSuchVolume", 'err FormatError "Invalid partition status"',
            'err FormatError "Partition type not supported"')
 
@@ -121,7 +120,7 @@ def valid_table(rng, thorough):
         if g["lba"] + g["part_blocks"] <= U32:
             gs.append(("big_fat32", g))
     # random geometries
-    for _ in range(1500 if thorough else 120):
+    for _ in range(4000 if thorough else 120):
         fat32 = rng.chance(1, 2)
         spc = rng.choice(SPCS)
         if fat32:
@@ -277,7 +276,7 @@ def copy_blocks(bl):
 def malformed_cases(rng, bases, thorough):
     """bases: list of (g, blocks{idx: bytearray}) of valid formatted devices (no file)"""
     cases = []
-    scale = 6 if thorough else 1
+    scale = 20 if thorough else 1
 
     def sectors(g):
         first_data, N = spec_numbers(g)
@@ -335,6 +334,25 @@ def malformed_cases(rng, bases, thorough):
             else:
                 v = rng.choice([65535, 1, U32 & 0xFFFF]); put(boot, 22, 2, v); d.append("fat_size16=%d" % v)
         cases.append(Case("arith_corners", b, g["slot"], " ".join(d)))
+    # (iii-b) the narrow window where BPB_FSInfo can lie outside a FAT32 volume: total in 65525+..65535 with a
+    # tiny non-data area, FS info sector number >= total, partition ending near the end of the address space
+    for g, bl in [b_ for b_ in bases if spec_numbers(b_[0])[1] >= 65525][:4]:
+        for _ in range(12 * scale):
+            b = copy_blocks(bl); boot = bytearray(b[g["lba"]])
+            res = rng.choice([1, 2, 3]); nf = rng.choice([1, 2]); fsz = rng.choice([1, 2])
+            total = 65525 + res + nf * fsz + rng.below(65535 - 65525 - res - nf * fsz + 1)
+            fi = rng.choice([total, total - 1, total + 1, 65535, 65534, res, 1, 0])
+            lba = rng.choice([U32 - total, U32 - total - 1, U32 - total + 1, U32 - 65535, U32 - fi, U32 - fi + 1, 2048])
+            lba = min(lba, U32)
+            put(boot, 13, 1, 1); put(boot, 14, 2, res); put(boot, 16, 1, nf); put(boot, 17, 2, 0)
+            put(boot, 19, 2, rng.choice([0, total])); put(boot, 22, 2, 0); put(boot, 32, 4, total); put(boot, 36, 4, fsz)
+            put(boot, 48, 2, fi)
+            p = 446 + 16 * g["slot"]; put(b[0], p + 8, 4, lba); put(b[0], p + 12, 4, total)
+            info = b.get(g["lba"] + g["fs_info"])
+            b = {0: b[0], lba: boot}
+            if info is not None and lba + fi <= U32 and lba + fi not in b:
+                b[lba + fi] = bytearray(info)
+            cases.append(Case("info_location_window", b, g["slot"], "tiny fat32 total=%d fs_info=%d lba=%d" % (total, fi, lba)))
     # (iv) random single-byte / few-byte mutations anywhere in the three sectors
     for _ in range(1200 * scale):
         g, bl = rng.choice(bases)
@@ -440,7 +458,7 @@ def check(run, replay=None):
     for prof in ("dev", "release"):
         bins, out = V.cargo_build(["mountrun"], profile=prof)
         if bins is None:
-            run.violation("harness does not build against /repo (%s)" % prof, out[-3000:], no_input=True)
+            run.violation("harness does not build against %s (%s)" % (V.REPO, prof), out[-3000:], no_input=True)
             return "proof"
         impls[prof] = bins["mountrun"]
 
@@ -479,7 +497,7 @@ def check(run, replay=None):
         r = ginfo[id(g)]
         if not r["valid"]:
             machinery.append("generator produced a geometry the spec calls invalid: " + gcmd(g)); continue
-        if r["model"] != r["expect"] and cls != "edge_end_of_space":
+        if r["model"] != r["expect"]:
             machinery.append("model mount(format g) differs from layout g (contradicts C15_valid): " + gcmd(g)); continue
         bl = copy_blocks(r["blocks"])
         if len(bases) < 400 and cls in ("table", "slots", "fat16axes") and (len(bases) < 24 or frng.chance(1, 6)):
@@ -507,7 +525,6 @@ def check(run, replay=None):
     viol_panic, viol_spec, viol_file, corr = [], [], [], []
     outcomes, classes, seen, nontrivial = {}, {}, set(), set()
     evaluations = 0
-    known_edge = 0
     for c in cases:
         m = mres[id(c)][0]
         k = c.key()
@@ -527,10 +544,7 @@ def check(run, replay=None):
             if "panic" in r:
                 viol_panic.append((c, prof, r)); continue
             if c.expect is not None:
-                edge = c.cls == "edge_end_of_space"
-                if edge and r[0] == NOFIT and m == NOFIT:
-                    known_edge += 1
-                elif r[0] != c.expect:
+                if r[0] != c.expect:
                     viol_spec.append((c, prof, r)); continue
                 elif c.read_expect is not None and r[1] != c.read_expect:
                     viol_file.append((c, prof, r)); continue
@@ -549,12 +563,17 @@ def check(run, replay=None):
     if corr and not nviol:
         c, prof, r, m = corr[0]
         run.violation("model/implementation correspondence broken (MountModel.v vs open_raw_volume/parse_volume/bpb.rs/info.rs), %d inputs; no panic and no wrong layout on a valid geometry found" % len(corr),
-                      "correspondence: mount model vs implementation (%s build), class %s: %s\n# model         : %s\n# implementation: %s\n# theorems depending on it: C15_total C15_valid C15_info_sentinels C15_rejects\n%s" % (prof, c.cls, c.descr[:200], m, r[0], c.replay()),
+                      "correspondence: mount model vs implementation (%s build), class %s: %s\n# model         : %s\n# implementation: %s\n# theorems depending on it: C15_total C15_valid C15_valid_fields C15_info_sentinels C15_rejects\n%s" % (prof, c.cls, c.descr[:200], m, r[0], c.replay()),
                       no_input=True)
-    if known_edge:
-        run.known("end-of-address-space", "a partition ending exactly at block 2^32 is rejected")
-        run.notes.append("a well-formed partition whose last block is 2^32-1 (lba + total = 2^32) is rejected with FormatError(\"Volume does not fit the device\") by model and implementation (C15_valid_edge_refuted); observed %d times" % known_edge)
-
+    wanted = ["Invalid MBR signature", "Invalid partition status", "Partition type not supported", "Bad BPB footer",
+              "Bad BPB block counts", "Bad BPB blocks per cluster", "FAT12 is unsupported", "Invalid FAT format",
+              "Volume does not fit the device", "Bad FS info location", "Bad lead signature on InfoSector",
+              "Bad struc signature on InfoSector", "Bad trail signature on InfoSector", "err BadBlockSize", "err DeviceError",
+              "err NoSuchVolume", "ok fat16", "ok fat32"]
+    missing = [w for w in wanted if w not in outcomes]
+    if missing:
+        run.violation("check machinery: the generated inputs never reach these outcomes of the model: %s" % missing,
+                      "outcomes not covered: %r" % missing, no_input=True)
     nvalid = sum(1 for c in cases if c.expect is not None)
     nfiles = sum(1 for c in cases if c.read_expect is not None)
     run.coverage.update(
